@@ -13,6 +13,11 @@ def ops : List (String × Handler) := [
     match adhocStr doc name b with
     | .ok r => return Json.mkObj [("typ", optStr r)]
     | .error e => return Json.mkObj [("raises", Json.str e)]),
+  /- _parse_adhoc_doc_for_typ_phase0(doc, words) → words (after the call), candidate_type, fst_sentence, sentence -/
+  ("c17.phase0", fun j => do
+    let doc ← getChars j "doc"
+    let (words, cand, fst, sent) := phase0 doc
+    return Json.mkObj [("words", strs (words.map v)), ("cand", optStr (cand.map v)), ("fst", str (v fst)), ("sentence", optStr (sent.map v))]),
   /- SafeAlphabet membership of every character of a string (the model's `safeC`), with the offending characters -/
   ("c17.safe", fun j => do
     let s ← getChars j "s"
